@@ -21,7 +21,10 @@ FUNCTIONS = ["strax.processing.peak_building.find_peaks", "strax.utils.growing_r
 BOUNDS = {
     "quick": "find_peaks: <=4 hits in <=2 channels, times / lengths / areas, gap threshold, extensions, min_area and "
              "max_duration symbolic on Z; moving average: <=6 samples, wing 1..3; replace_merged: <=4 originals x <=2 "
-             "merged, symbolic times; merge_peaks: 3 peaks with symbolic areas / n_hits / samples, concrete times",
+             "merged, symbolic times; merge_peaks: 3 peaks with symbolic areas / n_hits / samples, concrete times; two "
+             "groups in one call; two adjacent peaks whose union needs down-sampling (8-sample waveform) followed by "
+             "replace_merged; _split_peaks on two-bump waveforms with a symbolic peak time; interval kernel of "
+             "highest_density_region: 3-7 samples in [0,9], symbolic level, buffers of 1-3 intervals",
     "thorough": "<=5 hits, <=7 samples",
 }
 ASSUMPTIONS = ["replace_merged: merged intervals are hulls of disjoint groups of consecutive originals (how merged peaks arise); "
@@ -30,8 +33,8 @@ ASSUMPTIONS = ["replace_merged: merged intervals are hulls of disjoint groups of
                "integer or exact-rational arithmetic: hit areas are integers, gains in {1, 2}; float32 accumulation order "
                "and rounding are not modelled", "hits sorted by time, same dt (documented preconditions of find_peaks)",
                "find_peaks' own assertion gap_threshold > left+right extension is a precondition"]
-OUTSIDE = ["sum_waveform / store_downsampled_waveform / _build_hit_waveform (waveform summing)", "PeakSplitter and "
-           "LocalMinimumSplitter / natural breaks", "index_of_fraction / compute_widths / compute_center_time",
+OUTSIDE = ["sum_waveform / store_downsampled_waveform / _build_hit_waveform (waveform summing)", "PeakSplitter.__call__ "
+           "beyond _split_peaks' tiling (the re-summing of the fragments)", "index_of_fraction / compute_widths / compute_center_time",
            "highest_density_region beyond its interval kernel (sorting, float fractions)", "add_lone_hits", "IEEE rounding", "merge_peaks waveform buffers with symbolic times"]
 STUBS = ["np constructors -> object arrays", "min/max/int shims"]
 
